@@ -25,6 +25,19 @@ pub fn all() -> Vec<Check> {
 		stub: SRV_STUB,
 	},
 	Check {
+		prop: "C02",
+		level: "exploration",
+		scens: vec![Scen { name: "srv_batch", f: || Box::pin(srv::batch::scenario()), weight: 1, sweep: None, max_steps: 200_000 }],
+		quick_runs: 3_000,
+		thorough_runs: 400_000,
+		rule: "1-2 batches of 0-8 entries (C01 entry grammar + calls to subscribe/unsubscribe methods + duplicate ids, drawn order) under batch config Disabled/Limit(n)/Unlimited, sent over WebSocket between pipelined single calls and next to a live non-batch subscription, and over HTTP; every call entry is also sent alone; swarm over entry point, write-queue capacity, fragmentation; non-trivial = a batch with >= 2 reply-expecting entries was answered; distinct = schedule fingerprint",
+		lib_panic_is_violation: false,
+		stuck_is_violation: false,
+		assumptions: vec!["a poll of a task is atomic", "entries are seeded generation from the C01 grammar", "response-size limit kept large (C08 covers it)"],
+		real: SRV_REAL,
+		stub: SRV_STUB,
+	},
+	Check {
 		prop: "C03",
 		level: "exploration",
 		scens: vec![Scen { name: "cli_calls", f: || Box::pin(cli::calls::scenario()), weight: 1, sweep: None, max_steps: 50_000 }],
